@@ -780,19 +780,19 @@ class Weaver:
                 if lp["kw"] != "for":
                     continue
                 hdr = src[T(lp["kw_tok"]).start:T(lp["body_open"]).start]
-                m = re.match(r"for\s*\(\s*(\w+)\s*,\s*&\s*(\w+)\s*\)\s+in\s+(.+?)\s*\.\s*iter\s*\(\s*\)\s*\.\s*enumerate\s*\(\s*\)\s*$", hdr, re.S)
+                m = re.match(r"for\s*\(\s*(\w+)\s*,\s*(&?)\s*(\w+)\s*\)\s+in\s+(.+?)\s*\.\s*iter\s*\(\s*\)\s*\.\s*enumerate\s*\(\s*\)\s*$", hdr, re.S)
                 if not m:
                     continue
                 # side condition: no break/continue in the body
                 for k in range(lp["body_open"], lp["body_close"]):
                     if T(k).kind == "ident" and T(k).text in ("break", "continue"):
                         raise Lost("%s::%s: R1 side condition violated (break/continue in enumerate loop)" % (f, fn))
-                I, X, E = m.group(1), m.group(2), m.group(3)
+                I, AMP, X, E = m.group(1), m.group(2), m.group(3), m.group(4)
                 kv = "__k%d" % n
                 add(T(lp["kw_tok"]).start, T(lp["body_open"]).start,
                     "let mut %s: usize = 0;\n while %s < %s.len() " % (kv, kv, E), "R1")
                 p = T(lp["body_open"]).end
-                add(p, p, " let %s = %s; let %s = %s[%s];" % (I, kv, X, E, kv), "R1", 20)
+                add(p, p, " let %s = %s; let %s = %s%s[%s];" % (I, kv, X, "" if AMP else "&", E, kv), "R1", 20)
                 p = T(lp["body_close"]).start
                 add(p, p, " %s += 1;\n" % kv, "R1", 90)
                 elog.append("R1: `%s` => indexed while loop over `%s` (line %d)" % (
